@@ -447,66 +447,8 @@ def r1_alphabets(run):
             if is_value:
                 run.check('+' not in got, "'+' is escaped by the %s" % tag, fa.f, cons + " has no '+'",
                           runtime_witness="decode(encode_value('a+b')) == 'a b'")
-    # pass-through returns of the nested encoder
-    enc = f0.enc
-    cfg = cfg_of(enc, p)
-    run.use_cfg(cfg)
-    eparams = [a.arg for a in enc.node.args.args]
-    up = single(eparams, 'parameter of the nested encoder', enc.qual)
-
-    def is_rstrip(e):
-        return (isinstance(e, ast.Call) and isinstance(e.func, ast.Attribute) and e.func.attr == 'rstrip'
-                and isinstance(e.func.value, ast.Name) and e.func.value.id == up and len(e.args) == 1)
-
-    def is_check(e):
-        return isinstance(e, ast.Name) and e.id == f0.p_check
-
-    n_pass = 0
-    for n in cfg.live_nodes():
-        if not (n.kind == 'stmt' and isinstance(n.ast, ast.Return)):
-            continue
-        v = n.ast.value
-        if not (isinstance(v, ast.Name) and v.id == up):
-            continue
-        n_pass += 1
-        guards = []
-        for t in cfg.live_nodes():
-            if t.kind != 'test':
-                continue
-            calls = [x for x in walk_self(t.ast) if is_rstrip(x)]
-            for c in calls:
-                for (y, l) in cfg.succ[t.id]:
-                    if l in ('T', 'F') and flow.dominated_by_edge(cfg, n.id, (t.id, y, l)) \
-                            and _truthiness(t.ast, l == 'T', lambda e, c=c: e is c) is False:
-                        guards.append(c.args[0])
-        verdict, tn = _guard_verdict(cfg, n.id, is_check, True)
-        if verdict == 'unknown':
-            raise UnknownIdiom('%s: test %s' % (enc.qual, short(tn.ast, 80)))
-        escaped_path = verdict == 'proved'
-        for (is_value, check), fa in sorted(fs.items()):
-            if escaped_path and not check:
-                continue
-            allowed = set(fa.allowed)
-            target = allowed | {'%'} if escaped_path else allowed
-            alphas = []
-            for g in guards:
-                a = fa.ev.expr(g, fa.env)
-                if not isinstance(a, str):
-                    raise UnknownIdiom('%s: rstrip alphabet %s' % (enc.qual, short(g, 60)))
-                alphas.append(set(a))
-            if escaped_path:
-                ok = bool(alphas) and set.intersection(*alphas) == target
-                what = ('the already-escaped shortcut applies exactly to strings over the allowed characters plus %% '
-                        '(is_value=%s)' % is_value)
-            else:
-                ok = bool(alphas) and set.intersection(*alphas) <= target
-                what = 'the input is returned unencoded only if every character is in the allowed set (is_value=%s, check_is_escaped=%s)' % (
-                    is_value, check)
-            run.check(ok, what, enc, n.ast if not alphas else guards[0], where='%s:%s' % (enc.file, n.lineno),
-                      witness=['alphabets: %s' % [_show(a) for a in alphas], 'wanted: %r' % _show(target)],
-                      runtime_witness="encode('a b') returns 'a b'" if not escaped_path else "encode_check_escaped('%20 x')")
-    if not n_pass:
-        raise AnchorError('%s: no pass-through return' % enc.qual)
+    # what reaches the output without passing through the char table
+    _r1_verbatim(run, fs)
 
 
 def _utf8_encode_of(e, name: str) -> Optional[bool]:
@@ -541,6 +483,445 @@ def _expand(f: Func, e, depth=4):
         else:
             break
     return e
+
+
+# ---------------------------------------------------------------------------
+# path facts: a small forward dataflow over the non-exceptional edges
+# ---------------------------------------------------------------------------
+
+def _forward(cfg, init, transfer, join, budget=20000):
+    """State at every node reachable over non-exceptional edges.
+    transfer(state, a, b, label) -> state after the edge, None: edge infeasible."""
+    state = {cfg.entry: init}
+    work = [cfg.entry]
+    while work:
+        budget -= 1
+        if budget < 0:
+            raise UnknownIdiom('%s: path facts do not converge' % cfg.func.qual)
+        a = work.pop()
+        for (b, l) in cfg.succ.get(a, ()):
+            if l == 'exc':
+                continue
+            sb = transfer(state[a], a, b, l)
+            if sb is None:
+                continue
+            old = state.get(b)
+            new = sb if old is None else join(old, sb)
+            if new != old:
+                state[b] = new
+                work.append(b)
+    return state
+
+
+def _restrict(expr, truth: bool, state, atom, join):
+    """State after `expr` evaluated to `truth` (None: cannot happen).  and/or
+    with short-circuit order; `atom(e, truth, state)` handles the leaves and
+    returns NotImplemented for a leaf it has no opinion about *as a whole*
+    (then not/and/or are taken apart)."""
+    r = atom(expr, truth, state, False)
+    if r is not NotImplemented:
+        return r
+    if isinstance(expr, ast.UnaryOp) and isinstance(expr.op, ast.Not):
+        return _restrict(expr.operand, not truth, state, atom, join)
+    if isinstance(expr, ast.BoolOp):
+        if isinstance(expr.op, ast.And) == truth:
+            for v in expr.values:       # every operand has the value `truth`
+                state = _restrict(v, truth, state, atom, join)
+                if state is None:
+                    return None
+            return state
+        out = None                      # some operand has it, those before it have the other value
+        pre = state
+        for v in expr.values:
+            if pre is None:
+                break
+            s = _restrict(v, truth, pre, atom, join)
+            if s is not None:
+                out = s if out is None else join(out, s)
+            pre = _restrict(v, not truth, pre, atom, join)
+        return out
+    return atom(expr, truth, state, True)
+
+
+_NC = object()     # "not a constant of the configuration"
+ALL_CHARS = frozenset(chr(i) for i in range(256)) | {'\u0100'}   # U+0100 stands for every character above Latin-1
+
+
+def _stored_names(fnode) -> Set[str]:
+    a = fnode.args
+    out = {x.arg for x in a.posonlyargs + a.args + a.kwonlyargs}
+    for x in (a.vararg, a.kwarg):
+        if x is not None:
+            out.add(x.arg)
+    for n in walk_no_nested(fnode):
+        if isinstance(n, ast.Name) and isinstance(n.ctx, (ast.Store, ast.Del)):
+            out.add(n.id)
+    return out
+
+
+def _return_parts(enc: Func, up: str, table_var: str, v) -> List[tuple]:
+    """The value a nested encoder returns, as a concatenation of
+    ('whole', node)  the input itself,
+    ('raw', node)    a slice up[lo:hi] of the input, verbatim,
+    ('enc', bytes expression, node)   ''.join(map(TABLE, BYTES)) / ''.join(TABLE(b) for b in BYTES)."""
+    out: List[tuple] = []
+
+    def add(e, depth):
+        if isinstance(e, ast.BinOp) and isinstance(e.op, ast.Add):
+            add(e.left, depth)
+            add(e.right, depth)
+            return
+        if isinstance(e, ast.Constant) and e.value == '':
+            return
+        if isinstance(e, ast.Name):
+            if e.id == up:
+                out.append(('whole', e))
+                return
+            e2 = _expand(enc, e, 1)
+            if e2 is e or depth > 4:
+                raise UnknownIdiom('%s: encoded return %s (local %s)' % (enc.qual, short(v, 80), e.id))
+            add(e2, depth + 1)
+            return
+        if isinstance(e, ast.Subscript) and isinstance(e.value, ast.Name) and e.value.id == up and isinstance(e.slice, ast.Slice):
+            out.append(('raw', e))
+            return
+        # ''.join(map(TABLE, BYTES)) / ''.join(TABLE(b) for b in BYTES)
+        if not (isinstance(e, ast.Call) and isinstance(e.func, ast.Attribute) and e.func.attr == 'join'
+                and isinstance(e.func.value, ast.Constant) and e.func.value.value == '' and len(e.args) == 1 and not e.keywords):
+            raise UnknownIdiom('%s: encoded return %s' % (enc.qual, short(v, 80)))
+        a = e.args[0]
+        src = fn = None
+        if isinstance(a, ast.Call) and isinstance(a.func, ast.Name) and a.func.id == 'map' and len(a.args) == 2:
+            fn, src = a.args
+        elif isinstance(a, (ast.GeneratorExp, ast.ListComp)) and len(a.generators) == 1 and not a.generators[0].ifs \
+                and isinstance(a.elt, ast.Call) and len(a.elt.args) == 1 and isinstance(a.elt.args[0], ast.Name) \
+                and isinstance(a.generators[0].target, ast.Name) and a.elt.args[0].id == a.generators[0].target.id:
+            fn, src = a.elt.func, a.generators[0].iter
+        if not (isinstance(fn, ast.Name) and fn.id == table_var):
+            raise UnknownIdiom('%s: encoded return %s does not map the char table' % (enc.qual, short(v, 80)))
+        out.append(('enc', _expand(enc, src), e))
+
+    if v is None:
+        raise UnknownIdiom('%s: bare return' % enc.qual)
+    add(v, 0)
+    if not out:
+        raise UnknownIdiom('%s: encoded return %s' % (enc.qual, short(v, 80)))
+    return out
+
+
+def _encoded_name(e) -> Optional[str]:
+    """e is `<name>.encode(...)` -> name."""
+    if isinstance(e, ast.Call) and isinstance(e.func, ast.Attribute) and e.func.attr == 'encode' and isinstance(e.func.value, ast.Name):
+        return e.func.value.id
+    return None
+
+
+class _EncPaths:
+    """Path facts of the nested encoder under ONE configuration of the factory
+    (the closure constants are known): which characters the input can still
+    contain at a node, which definitions of the "stripped head" locals reach
+    it, and whether every path to it left a loop through its normal exit."""
+
+    def __init__(self, fa: _Factory, enc: Func, cfg, up: str):
+        self.fa, self.enc, self.cfg, self.up = fa, enc, cfg, up
+        self.locals = _stored_names(enc.node)
+        if _assignments(enc.node, up):
+            raise UnknownIdiom('%s rebinds its parameter %s' % (enc.qual, up))
+        # locals that hold a prefix of the input: X = up.rstrip(A) | X = up
+        self.defs: Dict[str, List[Tuple[str, Optional[frozenset]]]] = {}
+        self.binder: Dict[int, List[Tuple[str, int]]] = {}
+        for name in sorted(self.locals - {up}):
+            ds = []
+            for (stmt, val) in _assignments(enc.node, name):
+                ds.append((stmt, self._classify_def(val)))
+            if any(k[0] == 'strip' for (_s, k) in ds):
+                self.defs[name] = [k for (_s, k) in ds]
+                for i, (stmt, _k) in enumerate(ds):
+                    self.binder.setdefault(id(stmt), []).append((name, i))
+        # locals computed from the input (for the "unread test" bookkeeping)
+        self.derived: Set[str] = set()
+        changed = True
+        while changed:
+            changed = False
+            for name in self.locals - {up} - self.derived:
+                for (stmt, val) in _assignments(enc.node, name):
+                    srcs = [val] if val is not None else [getattr(stmt, 'value', None), getattr(stmt, 'iter', None)]
+                    if any(s is not None and self._mentions(s, self.derived | {up}) for s in srcs):
+                        self.derived.add(name)
+                        changed = True
+                        break
+        # token loops of the already-escaped heuristic: their tests are about the text between two '%'
+        self.token_loops = []
+        for n in walk_self(enc.node):
+            if isinstance(n, ast.For):
+                it = n.iter.value if isinstance(n.iter, ast.Subscript) else n.iter
+                base = _expand(enc, it)
+                if isinstance(base, ast.Call) and isinstance(base.func, ast.Attribute) and base.func.attr == 'split' \
+                        and isinstance(base.func.value, ast.Name) and base.func.value.id == up:
+                    self.token_loops.append(n)
+        self.opaque: Set[int] = set()
+        self._cur = None
+        self.state = _forward(cfg, (ALL_CHARS, frozenset(), False), self._transfer, self._join)
+
+    # ---------------------------------------------------------------- helpers
+    @staticmethod
+    def _mentions(e, names) -> bool:
+        return any(isinstance(x, ast.Name) and x.id in names for x in ast.walk(e))
+
+    def const(self, e):
+        """Value of an expression over the closure constants / module constants."""
+        if self._mentions(e, self.locals):
+            return _NC
+        try:
+            return self.fa.ev.expr(e, dict(self.fa.env))
+        except UnknownIdiom:
+            return _NC
+
+    def _strip_call(self, e) -> Optional[frozenset]:
+        """e is up.rstrip(A) / up.strip(A) / up.lstrip(A) -> A"""
+        if isinstance(e, ast.Call) and isinstance(e.func, ast.Attribute) and e.func.attr in ('rstrip', 'strip', 'lstrip') \
+                and isinstance(e.func.value, ast.Name) and e.func.value.id == self.up and len(e.args) == 1 and not e.keywords:
+            a = self.const(e.args[0])
+            if isinstance(a, str):
+                return frozenset(a)
+        return None
+
+    def _classify_def(self, val):
+        if isinstance(val, ast.Name) and val.id == self.up:
+            return ('whole', frozenset())
+        if isinstance(val, ast.Call) and isinstance(val.func, ast.Attribute) and val.func.attr == 'rstrip':
+            a = self._strip_call(val)
+            if a is not None:
+                return ('strip', a)
+        return ('other', None)
+
+    def tail_alphabet(self, name: str, defs) -> Optional[frozenset]:
+        """Characters of the input after the prefix held by `name` (None: some reaching definition is not read)."""
+        out = frozenset()
+        reach = [i for (n, i) in defs if n == name]
+        if name not in self.defs or not reach:
+            return None
+        for i in reach:
+            kind, alpha = self.defs[name][i]
+            if alpha is None:
+                return None
+            out |= alpha
+        return out
+
+    @staticmethod
+    def _join(s1, s2):
+        return (s1[0] | s2[0], s1[1] | s2[1], s1[2] and s2[2])
+
+    # --------------------------------------------------------------- transfer
+    def _transfer(self, state, a, b, l):
+        n = self.cfg.node(a)
+        chars, defs, acc = state
+        key = id(n.ast) if n.kind == 'stmt' else (id(n.stmt) if n.kind in ('iter', 'with') and l != 'done' else None)
+        for (name, i) in self.binder.get(key, ()):
+            defs = frozenset(d for d in defs if d[0] != name) | {(name, i)}
+        state = (chars, defs, acc)
+        if n.kind == 'test' and l in ('T', 'F'):
+            self._cur = n.id
+            state = _restrict(n.ast, l == 'T', state, self._atom, self._join)
+            if state is None:
+                return None
+            if isinstance(n.stmt, ast.While) and l == 'F':
+                state = (state[0], state[1], True)
+        elif n.kind == 'iter' and l == 'done':
+            state = (chars, defs, True)
+        return state
+
+    def _falsy(self, e, state):
+        """State when `e` (the input, a strip of it, a prefix local) is empty; NotImplemented if e is none of these."""
+        chars, defs, acc = state
+        if isinstance(e, ast.Name) and e.id == self.up:
+            return (frozenset(), defs, acc)
+        a = self._strip_call(e)
+        if a is not None:
+            return (chars & a, defs, acc)
+        if isinstance(e, ast.Name) and e.id in self.defs:
+            a = self.tail_alphabet(e.id, defs)
+            if a is None:
+                self.opaque.add(self._cur)
+                return state
+            return (chars & a, defs, acc)
+        return NotImplemented
+
+    def _atom(self, e, truth, state, leaf):
+        c = self.const(e)
+        if c is not _NC:
+            try:
+                return state if bool(c) == truth else None
+            except Exception:
+                return state
+        r = self._falsy(e, state)
+        if r is not NotImplemented:
+            return state if truth else r
+        if isinstance(e, ast.Compare) and len(e.ops) == 1:
+            op, l, rr = e.ops[0], e.left, e.comparators[0]
+            if isinstance(op, (ast.In, ast.NotIn)) and isinstance(rr, ast.Name) and rr.id == self.up:
+                ch = self.const(l)
+                if isinstance(ch, str):
+                    absent = isinstance(op, ast.NotIn) == truth
+                    if absent and len(ch) == 1:
+                        return (state[0] - {ch}, state[1], state[2])
+                    return state
+            if isinstance(op, (ast.Eq, ast.NotEq)):
+                for x, y in ((l, rr), (rr, l)):
+                    if isinstance(y, ast.Constant) and y.value == '':
+                        r = self._falsy(x, state)
+                        if r is not NotImplemented:
+                            return r if isinstance(op, ast.Eq) == truth else state
+        if not leaf and (isinstance(e, ast.BoolOp) or (isinstance(e, ast.UnaryOp) and isinstance(e.op, ast.Not))):
+            return NotImplemented
+        # a test that is not read: remember it if it is about the input
+        names = {x.id for x in ast.walk(e) if isinstance(x, ast.Name)}
+        if names & ({self.up} | set(self.defs) | self.derived):
+            if not self._token_test(names):
+                self.opaque.add(self._cur)
+        return state
+
+    def _token_test(self, names) -> bool:
+        """The current test sits in a token loop of the already-escaped heuristic and
+        is about locals bound inside that loop only (the text between two '%')."""
+        node = self.cfg.node(self._cur)
+        about = names & ({self.up} | set(self.defs) | self.derived)
+        for lp in self.token_loops:
+            if any(x is node.ast for s in lp.body for x in ast.walk(s)):
+                inner = set()
+                for s in lp.body:
+                    inner |= {x.id for x in ast.walk(s) if isinstance(x, ast.Name) and isinstance(x.ctx, ast.Store)}
+                inner |= {x.id for x in ast.walk(lp.target) if isinstance(x, ast.Name)}
+                if about <= inner:
+                    return True
+        return False
+
+    def unread_on_paths_to(self, nid: int) -> List[int]:
+        back = flow.co_reachable(self.cfg, [nid])
+        return sorted(t for t in self.opaque if t in back)
+
+
+def _r1_verbatim(run, fs):
+    """Every character of the input that reaches the output without passing
+    through the per-character table belongs to the allowed alphabet of the
+    configuration; '%' is passed through only where the whole string was
+    accepted by the already-escaped heuristic (R5 decides what that accepts).
+    Decided per configuration on the path facts of the nested encoder."""
+    p = run.project
+    f0 = fs[(False, False)]
+    enc = f0.enc
+    cfg = cfg_of(enc, p)
+    run.use_cfg(cfg)
+    up = single([a.arg for a in enc.node.args.args], 'parameter of the nested encoder', enc.qual)
+    rets = [n for n in cfg.live_nodes() if n.kind == 'stmt' and isinstance(n.ast, ast.Return)]
+    n_pass = 0
+    for (is_value, check), fa in sorted(fs.items()):
+        paths = _EncPaths(fa, enc, cfg, up)
+        allowed = frozenset(fa.allowed)
+        tag = 'is_value=%s, check_is_escaped=%s' % (is_value, check)
+        sample = "encode%s%s" % ('_value' if is_value else '', '_check_escaped' if check else '')
+
+        def verdict(n, S, whole, what_plain, construct, unread_bound=False, rw=None):
+            """S: the characters the verbatim part may consist of on the paths to n."""
+            chars, defs, acc = paths.state[n.id]
+            where = '%s:%s' % (enc.file, n.lineno)
+            wit = ['may contain: %r' % _show(S - allowed)[:40], 'allowed: %r' % _show(allowed)]
+            if S <= allowed:
+                run.ok(what_plain, where, construct)
+                return True
+            if check and acc:
+                target = allowed | {'%'}
+                if whole:
+                    ok = S == target
+                    what = ('the already-escaped shortcut applies exactly to strings over the allowed characters plus %% '
+                            '(is_value=%s)' % is_value)
+                else:
+                    ok = S <= target
+                    what = what_plain
+                if not ok:
+                    _unread(n, unread_bound)
+                return run.check(ok, what, enc, construct, where=where, witness=['alphabet: %r' % _show(S), 'wanted: %r' % _show(target)],
+                                 runtime_witness="%s('%%20 x')" % sample)
+            _unread(n, unread_bound)
+            run.fail(what_plain, enc, construct, where=where, witness=wit, runtime_witness=rw)
+            return False
+
+        def _unread(n, unread_bound):
+            if unread_bound:
+                raise UnknownIdiom('%s: bounds of the verbatim slice in %s' % (enc.qual, short(n.ast, 80)))
+            ts = paths.unread_on_paths_to(n.id)
+            if ts:
+                raise UnknownIdiom('%s: test %s' % (enc.qual, short(cfg.node(ts[0]).ast, 80)))
+
+        for n in rets:
+            if n.id not in paths.state:
+                continue    # not reachable under this configuration
+            chars, defs, acc = paths.state[n.id]
+            parts = _return_parts(enc, up, fa.table_var, n.ast.value)
+            kinds = [k[0] for k in parts]
+            if kinds == ['whole']:
+                n_pass += 1
+                verdict(n, chars, True, 'the input is returned unencoded only if every character is in the allowed set (%s)' % tag, n.ast,
+                        rw="%s('a b') returns 'a b'" % sample if not (chars <= allowed | {'%'}) else "%s('100%%') returns '100%%'" % sample)
+                continue
+            # verbatim slices of the input
+            bad = False
+            for part in parts:
+                if part[0] == 'whole':
+                    raise UnknownIdiom('%s: return %s' % (enc.qual, short(n.ast.value, 80)))
+                if part[0] != 'raw':
+                    continue
+                sl = part[1].slice
+                S = chars
+                unread_bound = sl.step is not None
+                lo = _expand(enc, sl.lower, 2) if sl.lower is not None else None
+                if isinstance(lo, ast.Call) and isinstance(lo.func, ast.Name) and lo.func.id == 'len' and len(lo.args) == 1 \
+                        and isinstance(lo.args[0], ast.Name) and lo.args[0].id in paths.defs:
+                    a = paths.tail_alphabet(lo.args[0].id, defs)
+                    if a is None:
+                        raise UnknownIdiom('%s: definitions of %s reaching %s' % (enc.qual, lo.args[0].id, short(n.ast, 80)))
+                    S = chars & a
+                elif not (lo is None or _lin(lo) is not None and _lin(lo)[0] is None):
+                    unread_bound = True
+                good = verdict(n, S, False, "a part of the input that is appended to the output without passing through the character table "
+                        "consists of allowed characters only; a '%%' only where the whole string was accepted as already escaped (%s)" % tag,
+                        n.ast, unread_bound,
+                        rw="%s('a b%%') == 'a%%20b%%'" % sample if '%' in S and S <= allowed | {'%'} else "%s('a b\\u00e9') keeps the last character raw" % sample)
+                bad = bad or not good
+            if bad:
+                continue
+            # the encoded part and the verbatim parts together are the whole input
+            what = 'every character of the input is either sent through the character table or appended verbatim: nothing is dropped (%s)' % tag
+            where = '%s:%s' % (enc.file, n.lineno)
+            encs = [k for k in parts if k[0] == 'enc']
+            name = _encoded_name(encs[0][1]) if len(encs) == 1 else None
+            if name is None:
+                raise UnknownIdiom('%s: bytes fed to the char table in %s' % (enc.qual, short(n.ast.value, 80)))
+            if kinds == ['enc']:
+                if name == up:
+                    run.ok(what, where, n.ast)
+                    continue
+                a = paths.tail_alphabet(name, defs)
+                if a is None:
+                    raise UnknownIdiom('%s: %s in %s' % (enc.qual, name, short(n.ast.value, 80)))
+                if not (chars & a):
+                    run.ok(what, where, n.ast)
+                    continue
+                _unread(n, False)
+                run.fail(what, enc, n.ast, where=where, witness=['%s is the input without its trailing %r' % (name, _show(chars & a)[:40])],
+                         runtime_witness="%s('a b-c') == 'a%%20b'" % sample)
+                continue
+            if kinds == ['enc', 'raw']:
+                sl = parts[1][1].slice
+                lo = _expand(enc, sl.lower, 2) if sl.lower is not None else None
+                if sl.upper is None and sl.step is None and isinstance(lo, ast.Call) and isinstance(lo.func, ast.Name) and lo.func.id == 'len' \
+                        and len(lo.args) == 1 and isinstance(lo.args[0], ast.Name) and lo.args[0].id == name and name in paths.defs \
+                        and paths.tail_alphabet(name, defs) is not None:
+                    run.ok(what, where, n.ast)
+                    continue
+            raise UnknownIdiom('%s: how the parts of %s make up the input' % (enc.qual, short(n.ast.value, 80)))
+    if not n_pass:
+        raise AnchorError('%s: no pass-through return' % enc.qual)
 
 
 def _hex_to_byte(run) -> Dict[bytes, bytes]:
@@ -596,31 +977,29 @@ def r2_escape_shape(run):
     run.use(enc)
     up = enc.node.args.args[0].arg
     n_enc = 0
+    prefix_locals = {up}
+    for name in _stored_names(enc.node) - {up}:
+        vals = [val for (_s, val) in _assignments(enc.node, name)]
+        # a local that holds the input or the input without trailing characters
+        if vals and all(isinstance(val, ast.Name) and val.id == up or (
+                isinstance(val, ast.Call) and isinstance(val.func, ast.Attribute) and val.func.attr == 'rstrip'
+                and isinstance(val.func.value, ast.Name) and val.func.value.id == up) for val in vals):
+            prefix_locals.add(name)
     for r in [x for x in walk_self(enc.node) if isinstance(x, ast.Return)]:
         v = r.value
         if isinstance(v, ast.Name) and v.id == up:
             continue
-        n_enc += 1
-        # ''.join(map(TABLE, BYTES)) / ''.join(TABLE(b) for b in BYTES)
-        if not (isinstance(v, ast.Call) and isinstance(v.func, ast.Attribute) and v.func.attr == 'join'
-                and isinstance(v.func.value, ast.Constant) and v.func.value.value == '' and len(v.args) == 1):
-            raise UnknownIdiom('%s: encoded return %s' % (enc.qual, short(v, 80)))
-        a = v.args[0]
-        src = fn = None
-        if isinstance(a, ast.Call) and isinstance(a.func, ast.Name) and a.func.id == 'map' and len(a.args) == 2:
-            fn, src = a.args
-        elif isinstance(a, (ast.GeneratorExp, ast.ListComp)) and len(a.generators) == 1 and not a.generators[0].ifs \
-                and isinstance(a.elt, ast.Call) and len(a.elt.args) == 1 and isinstance(a.elt.args[0], ast.Name) \
-                and isinstance(a.generators[0].target, ast.Name) and a.elt.args[0].id == a.generators[0].target.id:
-            fn, src = a.elt.func, a.generators[0].iter
-        if not (isinstance(fn, ast.Name) and fn.id == fa.table_var):
-            raise UnknownIdiom('%s: encoded return %s does not map the char table' % (enc.qual, short(v, 80)))
-        src = _expand(enc, src)
-        u = _utf8_encode_of(src, up)
-        if u is None:
-            raise UnknownIdiom('%s: bytes fed to the char table: %s' % (enc.qual, short(src, 60)))
-        run.check(u, 'the escapes are those of the UTF-8 bytes of the input', enc, src, where=enc.loc(r),
-                  runtime_witness="encode_value('\\u00e9') is not '%C3%A9'")
+        for part in _return_parts(enc, up, fa.table_var, v):
+            if part[0] != 'enc':
+                continue    # verbatim parts are R1's business
+            n_enc += 1
+            src = part[1]
+            name = _encoded_name(src)
+            u = _utf8_encode_of(src, name) if name in prefix_locals else None
+            if u is None:
+                raise UnknownIdiom('%s: bytes fed to the char table: %s' % (enc.qual, short(src, 60)))
+            run.check(u, 'the escapes are those of the UTF-8 bytes of the input', enc, src, where=enc.loc(r),
+                      runtime_witness="encode_value('\\u00e9') is not '%C3%A9'")
     if not n_enc:
         raise AnchorError('%s: no encoded return' % enc.qual)
 
@@ -1586,6 +1965,111 @@ def r5_check_escaped(run):
 # R6 parse_host
 # ---------------------------------------------------------------------------
 
+def _sep_atom(e, host: str) -> Optional[bool]:
+    """e is an atom about "a port separator was found": True when e being
+    true means found, False when e being true means not found, None otherwise.
+    `X != -1` / `X == -1` (a find result), `':' in host` / `':' not in host`."""
+    if isinstance(e, ast.Compare) and len(e.ops) == 1:
+        op, l, r = e.ops[0], e.left, e.comparators[0]
+        if isinstance(op, (ast.Eq, ast.NotEq)) and isinstance(l, ast.Name) and isinstance(r, ast.UnaryOp) and isinstance(r.op, ast.USub) \
+                and isinstance(r.operand, ast.Constant) and r.operand.value == 1:
+            return isinstance(op, ast.NotEq)
+        if isinstance(op, (ast.In, ast.NotIn)) and isinstance(l, ast.Constant) and isinstance(l.value, str) and ':' in l.value \
+                and isinstance(r, ast.Name) and r.id == host:
+            return isinstance(op, ast.In)
+    return None
+
+
+def _bracket_paths(f: Func, cfg, host: str):
+    """For every node: which outcomes of host.startswith('[') are possible on
+    the paths that reach it ({True}, {False}, both), plus the tests about the
+    host (or a local computed from it) whose shape is not read."""
+    opaque: Set[int] = set()
+    cur = [None]
+    derived: Set[str] = set()
+    changed = True
+    names = _stored_names(f.node) - {host}
+    while changed:
+        changed = False
+        for name in names - derived:
+            for (stmt, val) in _assignments(f.node, name):
+                srcs = [val] if val is not None else [getattr(stmt, 'value', None), getattr(stmt, 'iter', None)]
+                if any(x is not None and any(isinstance(y, ast.Name) and y.id in derived | {host} for y in ast.walk(x)) for x in srcs):
+                    derived.add(name)
+                    changed = True
+                    break
+
+    def is_host(e):
+        return isinstance(e, ast.Name) and e.id == host
+
+    def const_str(e):
+        return e.value if isinstance(e, ast.Constant) and isinstance(e.value, str) else None
+
+    def positive(e) -> Optional[bool]:
+        """atom: True when e true means "starts with '['", False when e true means it does not"""
+        if isinstance(e, ast.Call) and isinstance(e.func, ast.Attribute) and e.func.attr == 'startswith' \
+                and isinstance(e.func.value, ast.Name) and e.func.value.id == host and len(e.args) == 1 and not e.keywords \
+                and isinstance(e.args[0], ast.Constant) and e.args[0].value == '[':
+            return True
+        if isinstance(e, ast.Compare) and len(e.ops) == 1 and isinstance(e.ops[0], (ast.Eq, ast.NotEq)) \
+                and isinstance(e.comparators[0], ast.Constant) and e.comparators[0].value == '[':
+            l = e.left
+            first = isinstance(l, ast.Subscript) and isinstance(l.value, ast.Name) and l.value.id == host and (
+                (isinstance(l.slice, ast.Constant) and l.slice.value == 0)
+                or (isinstance(l.slice, ast.Slice) and l.slice.step is None and _lin(l.slice.lower) == (None, 0)
+                    and l.slice.upper is not None and _lin(l.slice.upper) == (None, 1)))
+            if first:
+                return isinstance(e.ops[0], ast.Eq)
+        return None
+
+    def atom(e, truth, state, leaf):
+        pol = positive(e)
+        if pol is not None:
+            st = state & {truth == pol}
+            return st or None
+        if is_host(e):                     # an empty host does not start with '['
+            return state if truth else (state & {False} or None)
+        if isinstance(e, ast.Compare) and len(e.ops) == 1:
+            op, l, r = e.ops[0], e.left, e.comparators[0]
+            c = const_str(r)
+            if isinstance(op, (ast.Eq, ast.NotEq)) and is_host(l) and c is not None:
+                if isinstance(op, ast.Eq) == truth:
+                    return state & {c.startswith('[')} or None
+                return state
+            c = const_str(l)
+            if isinstance(op, (ast.In, ast.NotIn)) and is_host(r) and c is not None:
+                absent = isinstance(op, ast.NotIn) == truth
+                if absent and c == '[':
+                    return state & {False} or None
+                return state               # says nothing about the first character
+            # host.find(':') == -1 / pos != -1 with pos = host.rfind(']:'): the outcome of a search for
+            # something that does not begin with '[' says nothing about the first character
+            if _lin(r) is not None and _lin(r)[0] is None:
+                searches = [l]
+                if isinstance(l, ast.Name) and l.id in derived:
+                    searches = [val for (_s, val) in _assignments(f.node, l.id)]
+                if searches and all(
+                        isinstance(x, ast.Call) and isinstance(x.func, ast.Attribute) and x.func.attr in ('find', 'rfind', 'index', 'count')
+                        and is_host(x.func.value) and len(x.args) == 1 and const_str(x.args[0]) is not None
+                        and not const_str(x.args[0]).startswith('[') for x in searches):
+                    return state
+        if not leaf and (isinstance(e, ast.BoolOp) or (isinstance(e, ast.UnaryOp) and isinstance(e.op, ast.Not))):
+            return NotImplemented
+        if any(isinstance(x, ast.Name) and x.id in derived | {host} for x in ast.walk(e)):
+            opaque.add(cur[0])
+        return state
+
+    def transfer(state, a, b, l):
+        n = cfg.node(a)
+        if n.kind == 'test' and l in ('T', 'F'):
+            cur[0] = n.id
+            return _restrict(n.ast, l == 'T', state, atom, lambda x, y: x | y)
+        return state
+
+    state = _forward(cfg, frozenset({True, False}), transfer, lambda x, y: x | y)
+    return state, opaque
+
+
 def r6_parse_host(run):
     p = run.project
     f = p.func(URI + '.parse_host')
@@ -1595,16 +2079,15 @@ def r6_parse_host(run):
     if len(params) != 2:
         raise UnknownIdiom('parse_host takes %s' % params)
     host, dflt = params
-
-    def is_bracket(e):
-        return (isinstance(e, ast.Call) and isinstance(e.func, ast.Attribute) and e.func.attr == 'startswith'
-                and isinstance(e.func.value, ast.Name) and e.func.value.id == host and len(e.args) == 1
-                and isinstance(e.args[0], ast.Constant) and e.args[0].value == '[')
+    if _assignments(f.node, host):
+        raise UnknownIdiom('parse_host rebinds its parameter %s' % host)
 
     rets = [n for n in cfg.live_nodes() if n.kind == 'stmt' and isinstance(n.ast, ast.Return)]
     if len(rets) < 3:
         raise AnchorError('parse_host: expected at least three returns')
     from .common import implied
+    bracket, opaque = _bracket_paths(f, cfg, host)
+    n_fail = 0
     for n in rets:
         v = n.ast.value
         if not (isinstance(v, ast.Tuple) and len(v.elts) == 2):
@@ -1615,25 +2098,38 @@ def r6_parse_host(run):
         is_default = isinstance(port, ast.Name) and port.id == dflt
         run.check(is_int or is_default, 'the port is an int() of the text after the separator, or the default', f, n.ast, where=where,
                   runtime_witness="parse_host('example.org:8080')[1] == '8080'")
-        # bracket facts
-        br = None
-        for t in cfg.live_nodes():
-            if t.kind == 'test' and any(is_bracket(x) for x in walk_self(t.ast)):
-                for (y, l) in cfg.succ[t.id]:
-                    if l in ('T', 'F') and flow.dominated_by_edge(cfg, n.id, (t.id, y, l)):
-                        r = implied(t.ast, l == 'T', is_bracket)
-                        if r is not None:
-                            br = r
-        if br is None:
-            raise UnknownIdiom('parse_host: return %s is not classified by host.startswith("[")' % short(v, 60))
+        # bracket facts on the paths to this return
+        br = bracket.get(n.id)
+        if not br:
+            raise UnknownIdiom('parse_host: return %s is not reached over normal edges' % short(v, 60))
         sl = _slice_lower(p, f, h, host)
         strips = sl is not None and sl[0] not in (None, 0)
-        if br:
+        if br == frozenset({True}):
             run.check(sl is not None and sl[0] == 1, 'a bracketed IPv6 host is returned without its brackets', f, n.ast, where=where,
                       runtime_witness="parse_host('[::1]:80')[0] == '[::1]'")
-        else:
+        elif br == frozenset({False}):
             run.check(not strips, 'only a bracketed host loses its first character', f, n.ast, where=where,
                       runtime_witness="parse_host('example.org')[0] == 'xample.org'")
+        else:
+            # nothing on the paths to this return says whether the host is bracketed
+            keeps_first = (isinstance(h, ast.Name) and h.id == host) or (sl is not None and sl[0] in (None, 0))
+            if not (keeps_first or strips):
+                raise UnknownIdiom('parse_host: return %s is not classified by host.startswith("[")' % short(v, 60))
+            back = flow.co_reachable(cfg, [n.id])
+            unread = sorted(t for t in opaque if t in back)
+            if unread:
+                raise UnknownIdiom('parse_host: test %s (is the host bracketed at %s?)' % (short(cfg.node(unread[0]).ast, 60), short(v, 60)))
+            path = flow.find_path(cfg, [cfg.entry], [n.id], edge_filter=flow.no_exc)
+            wit = flow.describe_path(cfg, path) if path else None
+            n_fail += 1
+            if keeps_first:
+                run.fail("a bracketed host is returned without its brackets on every path: this return hands back the host with its "
+                         "first character although no test on the way excludes host.startswith('[')", f, n.ast, where=where, witness=wit,
+                         runtime_witness="parse_host('[v1.fe80]') == ('[v1.fe80]', None) but parse_host('[v1.fe80]:80') == ('v1.fe80', 80)")
+            else:
+                run.fail("only a bracketed host loses its first character: this return strips it although no test on the way "
+                         "establishes host.startswith('[')", f, n.ast, where=where, witness=wit,
+                         runtime_witness="parse_host('example.org')[0] == 'xample.or'")
         if is_int:
             # a separator was found
             found = False
@@ -1641,28 +2137,21 @@ def r6_parse_host(run):
             for t in cfg.live_nodes():
                 if t.kind != 'test':
                     continue
-                for a in [x for x in walk_self(t.ast) if _is_minus1_cmp(x)]:
+                for a in [x for x in walk_self(t.ast) if _sep_atom(x, host) is not None]:
                     for (y, l) in cfg.succ[t.id]:
                         if l in ('T', 'F') and flow.dominated_by_edge(cfg, n.id, (t.id, y, l)):
                             r = implied(t.ast, l == 'T', lambda e, a=a: e is a)
                             if r is None:
                                 unknown = t
                                 continue
-                            eq = isinstance(a.ops[0], ast.Eq)
-                            if (eq and not r) or (not eq and r):
+                            if r == _sep_atom(a, host):
                                 found = True
             if not found and unknown is not None:
                 raise UnknownIdiom('parse_host: test %s' % short(unknown.ast, 80))
             run.check(found, 'a numeric port is returned only where a port separator was found', f, n.ast, where=where,
                       runtime_witness="parse_host('example.org') raises ValueError from int('')")
-
-
-def _is_minus1_cmp(e) -> bool:
-    if isinstance(e, ast.Compare) and len(e.ops) == 1 and isinstance(e.ops[0], (ast.Eq, ast.NotEq)):
-        r = e.comparators[0]
-        return isinstance(e.left, ast.Name) and isinstance(r, ast.UnaryOp) and isinstance(r.op, ast.USub) \
-            and isinstance(r.operand, ast.Constant) and r.operand.value == 1
-    return False
+    if not n_fail and not any(bracket.get(n.id) == frozenset({True}) for n in rets):
+        raise AnchorError("parse_host: no return on a path where host.startswith('[') is established")
 
 
 def check(run):
